@@ -178,6 +178,10 @@ class Case(object):
       res['note'] = note
     if verdict == 'unknown':
       res['reason'] = s.reason_unknown()
+    if verdict == 'unsat' and expect == 'unsat':
+      cr = cross_check(s, dt)
+      if cr is not None:
+        res['cross'] = cr
     if verdict == 'sat' and expect == 'unsat' and robust is not None:
       # Two-stage verdict (DESIGN 1.7): the exact question has a witness; ask
       # again for a witness that violates by a margin inside a stated box, so
@@ -227,6 +231,8 @@ class Case(object):
         except Exception as e:  # pylint: disable=broad-except
           res['replay_result'] = dict(reproduced=False, detail='inline replay raised %s: %s' % (type(e).__name__, str(e)[:200]))
         res['replay'] = dict(fn='inline')
+        if isinstance(res['replay_result'], dict) and res['replay_result'].get('weak'):
+          res['weak_witness'] = True  # the replay could only sample the real code: not reproducing = inconclusive
     self.results.append(res)
     return verdict
 
@@ -256,6 +262,45 @@ class Case(object):
   def encoded(self, *fns):
     for f in fns:
       self.functions.append(fn_id(f))
+
+
+_CROSS = dict(budget=None, spent=0.0)
+
+
+def cross_check(solver, z3_s):
+  """Second opinion (DESIGN 1.11): the query z3 answered `unsat` is printed as SMT-LIB2 (solver.to_smt2()) and given
+  to cvc5 under a small time budget per worker process.  cvc5 `sat` = solver disagreement (harness error); `unknown`
+  or timeout only means that no second opinion was obtained."""
+  if _CROSS['budget'] is None:
+    _CROSS['budget'] = float(os.environ.get('VERIF_CROSS_BUDGET', '20'))
+  left = _CROSS['budget'] - _CROSS['spent']
+  if left <= 0.5 or z3_s > 20:
+    return None
+  t = time.time()
+  try:
+    import cvc5
+    txt = solver.to_smt2()
+    tm = cvc5.TermManager()
+    slv = cvc5.Solver(tm)
+    slv.setOption('tlimit-per', str(int(min(left, 5.0) * 1000)))
+    slv.setLogic('ALL')
+    p = cvc5.InputParser(slv)
+    p.setStringInput(cvc5.InputLanguage.SMT_LIB_2_6, txt, 'q')
+    sm = p.getSymbolManager()
+    out = 'unknown'
+    while True:
+      cmd = p.nextCommand()
+      if cmd.isNull():
+        break
+      o = str(cmd.invoke(slv, sm)).strip()
+      if o in ('sat', 'unsat', 'unknown'):
+        out = o
+    v = out
+  except Exception as e:  # pylint: disable=broad-except
+    v = 'error: %s' % str(e)[:120]
+  dt = time.time() - t
+  _CROSS['spent'] += dt
+  return dict(solver='cvc5', verdict=v, s=round(dt, 3))
 
 
 def split_run(build, extra=(), depth=0, budget=None, leaf=''):
